@@ -9,7 +9,7 @@ LEVEL_NOTE = ('trusted: HMAC-SHA1 strength (MAC modelled as an ideal oracle: "si
 def run(ctx):
     T = ctx.thorough
     L = 5 if T else 4
-    tmo = 900 if T else 100
+    tmo = 600 if T else 100
     ucells = []
     for n in range(0, L + 1):
         for mac in (False, True):
